@@ -46,6 +46,7 @@ StrokeOK(b) == MaxStroke = 0 \/ (MaxStroke = 99 /\ b \in StrokeMenu)
 StrokeSet == IF MaxStroke = 99 THEN StrokeMenu ELSE {x \in 1..(2 ^ P - 1) : StrokeOK(x)}
 \* construction modes (call 12): ids kept / removed, direct / from_tracks / with a FeatureDict, region features removed
 RebuildModes == IF HasSeg THEN {0, 1, 2, 3, 4, 5, 6, 7, 8, 11, 12, 15, 16} ELSE {0, 1, 2, 3, 4, 5, 6, 7, 16}
+TwoFrameBits == IF MaxStroke = 99 THEN {1} ELSE {2 ^ r : r \in 0..(P - 1)}
 \* the call alphabet offered in state s (refused calls included)
 Ids(s) == 1..(IF s.maxT + 2 <= MaxId THEN s.maxT + 2 ELSE MaxId)
 Calls(s) ==
@@ -64,6 +65,10 @@ Calls(s) ==
                  {<<KPaint, t, b, v, 2 * i + f>> : t \in Times, b \in StrokeSet,
                                                     v \in {w \in 1..N : ~Has(s, w)}, i \in {1, s.maxT + 1}, f \in {0, 1}}
                  \cup {<<KPaint, t, b, v, 2>> : t \in Times, b \in StrokeSet, v \in {0} \cup Present(s)}
+                 \* strokes over two time points (t >= T): one in-frame pixel in frames t - T and t - T + 1
+                 \cup {<<KPaint, T + t, b, v, 2 * i + f>> : t \in 0..(T - 2), b \in TwoFrameBits,
+                                                            v \in {w \in 1..N : ~Has(s, w)}, i \in {1, s.maxT + 1}, f \in {0, 1}}
+                 \cup {<<KPaint, T + t, b, v, 2>> : t \in 0..(T - 2), b \in TwoFrameBits, v \in {0} \cup Present(s)}
             ELSE {})
     \cup (IF KEnable \in Kinds
             THEN {<<KEnable, m, r, 0, 0>> : m \in SwitchMasks, r \in {0, 1}} \cup {<<KDisable, m, 0, 0, 0>> : m \in SwitchMasks}
@@ -81,7 +86,7 @@ Calls(s) ==
     \cup (IF Hist THEN {<<KUndo, 0, 0, 0, 0>>, <<KRedo, 0, 0, 0, 0>>} ELSE {})
 
 \* a paint with an existing label must stay in that label's frame (C07 domain note)
-InDomain(s, c) == c[1] = KPaint => (c[4] # 0 /\ Has(s, c[4]) => s.time[c[4]] = c[2])
+InDomain(s, c) == (c[1] = KPaint /\ c[2] < T) => (c[4] # 0 /\ Has(s, c[4]) => s.time[c[4]] = c[2])
 
 \* calls used to EXPLORE (a subset of Calls: refused variants and most id / attribute
 \* variety add no new structure; they are still FIRED from every state, see AllX)
@@ -93,7 +98,7 @@ ExpCalls(s) ==
        ELSE {})
     \cup {c \in Calls(s) : c[1] \in {KAddEdge, KDelEdge, KDelNode, KSwap, KUndo, KRedo}}
     \* strokes of at most two pixels explore; all strokes are fired
-    \cup {c \in Calls(s) : c[1] = KPaint /\ (MaxStroke = 99 \/ Cardinality(Stroke(c[2], c[3])) <= 2)}
+    \cup {c \in Calls(s) : c[1] = KPaint /\ c[2] < T /\ (MaxStroke = 99 \/ Cardinality(Stroke(c[2], c[3])) <= 2)}
     \cup (IF KSetAttr \in Kinds THEN {<<KSetAttr, 1, 1, 1, 0>>} ELSE {})
     \* switching explores with recomputation only (stale values after recompute=False are allowed)
     \cup {c \in Calls(s) : (c[1] = KEnable /\ c[3] = 1 /\ c[2] < 256) \/ (c[1] = KDisable /\ c[2] < 256 /\ ~Bit(c[2], 5))}
